@@ -3,7 +3,8 @@
    The key codec, the packed index and Chunk are the functions GENERATED from the Go source
    (Gen/Arith.v); the run-length algebra and the ROI queries are the models of Model/RLE.v, Model/ROI.v. *)
 From DV Require Import Base.Prelude Base.Int Base.WrapZ Gen.Consts Gen.Arith Gen.LocalConsts
-  Model.Geometry Model.RLE Model.ROI Proofs.Geometry Proofs.RLE Proofs.ROI.
+  Model.Geometry Model.RLE Model.ROI Proofs.Geometry Proofs.RLE Proofs.ROI
+  Model.RLE2 Model.IZYX Proofs.RLE2 Proofs.IZYX Model.ROIPart Proofs.ROIPart.
 From Coq Require Import Sorting.Sorted Sorting.Permutation.
 Local Open Scope Z_scope.
 
@@ -226,7 +227,164 @@ Theorem C18_box_intersection_is_membership : forall emin emax s, px emin <= px e
              /\ pz emin <= pz b <= pz emax).
 Proof. exact intersects_iff_block. Qed.
 
+(* ---------- round 4: RLEs.Within / Offset / Stats ---------- *)
+
+(* RLE.Within is voxel membership of the run *)
+Theorem C18_rle_within : forall r p, run_ok r -> rle_within r p = inr p r.
+Proof. exact rle_within_inr. Qed.
+Print Assumptions C18_rle_within.
+
+(* RLEs.Within returns, without repetition, exactly the positions of the points that lie in the
+   voxel set of the runs (runs may overlap, points may repeat) *)
+Theorem C18_within : forall l pts, Forall run_ok l ->
+  NoDup (within l pts) /\
+  forall k, In k (within l pts) <-> exists p, nth_error pts k = Some p /\ inrs p l = true.
+Proof. exact within_ok. Qed.
+Print Assumptions C18_within.
+
+(* RLEs.Offset(d): p is in the result iff p + d is in the receiver; lengths and order kept *)
+Theorem C18_offset : forall l d p, Forall run_ok l -> pt_safe d ->
+  inrs p (offset l d) = inrs (padd3 p d) l.
+Proof. exact offset_ok. Qed.
+Print Assumptions C18_offset.
+Theorem C18_offset_shape : forall l d, length (offset l d) = length l /\ map rlen (offset l d) = map rlen l.
+Proof. exact offset_shape. Qed.
+
+(* RLEs.Stats of pairwise disjoint runs: the number of voxels of the set (the length of a
+   duplicate-free enumeration of it) and the number of runs *)
+Theorem C18_stats : forall l, Forall run_ok l -> pairwise_disjoint l -> Z.of_nat (length l) < 2147483648 ->
+  exists vs, NoDup vs /\ (forall p, In p vs <-> inrs p l = true)
+             /\ stats l = (Z.of_nat (length vs), Z.of_nat (length l)).
+Proof. exact stats_voxels. Qed.
+Print Assumptions C18_stats.
+(* for any runs (overlaps counted as often as they occur): the sum of the lengths *)
+Theorem C18_stats_sum : forall l, Forall run_ok l -> Z.of_nat (length l) < 2147483648 ->
+  stats l = (num_voxels l, Z.of_nat (length l)).
+Proof. exact stats_ok. Qed.
+Print Assumptions C18_stats_sum.
+
+(* ---------- round 4: IZYXSlice (sorted slices of block keys) ---------- *)
+
+(* the model's order and equality on block coordinates are Go's `<` and `==` on their keys *)
+Theorem C18_izyx_key_order : forall p q bp bq, pt_is32 p -> pt_is32 q -> to_zyx p = Ok bp -> to_zyx q = Ok bq ->
+  (zlt p q = true <-> bytes_cmp bp bq = Lt) /\ (p = q <-> bp = bq).
+Proof. exact key_order. Qed.
+Print Assumptions C18_izyx_key_order.
+
+(* Merge / MergeCopy of two sorted duplicate-free slices: the sorted duplicate-free union *)
+Theorem C18_izyx_merge : forall a b, ssorted a = true -> ssorted b = true ->
+  ssorted (imerge a b) = true /\ forall p, In p (imerge a b) <-> In p a \/ In p b.
+Proof. exact imerge_ok. Qed.
+Print Assumptions C18_izyx_merge.
+Theorem C18_izyx_merge_copy : forall a b, ssorted a = true -> ssorted b = true ->
+  ssorted (merge_copy a b) = true /\ forall p, In p (merge_copy a b) <-> In p a \/ In p b.
+Proof. exact merge_copy_ok. Qed.
+Print Assumptions C18_izyx_merge_copy.
+
+(* Delete (in place) and Split (copy): the sorted set difference *)
+Theorem C18_izyx_delete : forall a b, ssorted a = true -> ssorted b = true ->
+  ssorted (idelete a b) = true /\ forall p, In p (idelete a b) <-> In p a /\ ~ In p b.
+Proof. exact idelete_ok. Qed.
+Print Assumptions C18_izyx_delete.
+Theorem C18_izyx_split : forall a rm, ssorted a = true -> ssorted rm = true ->
+  ssorted (isplit a rm) = true /\ forall p, In p (isplit a rm) <-> In p a /\ ~ In p rm.
+Proof. exact isplit_ok. Qed.
+Print Assumptions C18_izyx_split.
+
+(* FitToBounds of a sorted slice: the blocks inside the optional block bounds (nil: all) *)
+Theorem C18_izyx_fit_to_bounds : forall l b, ssorted l = true ->
+  ssorted (ifit l b) = true /\ forall q, In q (ifit l b) <-> In q l /\ inside_opt b q = true.
+Proof. exact ifit_ok. Qed.
+Print Assumptions C18_izyx_fit_to_bounds.
+
+(* Downres(scale) of any slice (unsorted, repeats): the set of parents floor(c / 2^scale), sorted and
+   duplicate-free when scale > 0; scale 0 returns the slice as it is *)
+Theorem C18_izyx_downres : forall l s, 0 <= s ->
+  (s <> 0 -> ssorted (downres l s) = true)
+  /\ (s = 0 -> downres l s = l)
+  /\ forall q, In q (downres l s) <-> exists p, In p l /\ q = (px p / 2 ^ s, py p / 2 ^ s, pz p / 2 ^ s).
+Proof. exact downres_ok. Qed.
+Print Assumptions C18_izyx_downres.
+
+(* GetBounds of a non-empty slice is the bounding box of its blocks: every coordinate between the
+   returned minimum and maximum, both attained -- for coordinates from -2147483646 up (the code's
+   initial maximum is -math.MaxInt32 + 1) ... *)
+Theorem C18_izyx_get_bounds : forall l, l <> [] -> Forall (coords_in (-2147483646) 2147483647) l ->
+  is_bbox l (fst (get_bounds l)) (snd (get_bounds l)).
+Proof. exact get_bounds_ok. Qed.
+Print Assumptions C18_izyx_get_bounds.
+(* ... and not below: one block at x = -2147483647 gets the maximum -2147483646 *)
+Theorem C18_izyx_get_bounds_min_refuted :
+  exists l, l <> [] /\ Forall pt_is32 l /\ ~ is_bbox l (fst (get_bounds l)) (snd (get_bounds l))
+            /\ get_bounds l = ((-2147483647, 0, 0), (-2147483646, 0, 0)).
+Proof. exact get_bounds_min_refuted. Qed.
+(* with repo_patches/C18-4-fix.diff (initial maximum math.MinInt32): every int32 coordinate *)
+Theorem C18_izyx_get_bounds_fixed : forall l, l <> [] -> Forall pt_is32 l ->
+  is_bbox l (fst (get_bounds_fixed l)) (snd (get_bounds_fixed l)).
+Proof. exact get_bounds_fixed_ok. Qed.
+Print Assumptions C18_izyx_get_bounds_fixed.
+
+(* ---------- round 4: ROI partitioning (the reply of GET <roi>/partition) ---------- *)
+(* The check evaluates three booleans on the subvolumes the server reports; they mean: every block
+   of the ROI has exactly one owner among the subvolumes, no block at all lies in two subvolumes,
+   TotalBlocks is the volume of the box and ActiveBlocks the number of ROI blocks in it.  (No model
+   of the partitioner itself: these are statements about the oracle, for every reply.) *)
+Theorem C18_partition_tiles : forall spans vs, tiles_ok spans vs = true ->
+  forall b, in_spans b spans = true -> exists v, owners vs b = [v] /\ In v vs /\ box_has v b = true.
+Proof. exact tiles_sound. Qed.
+Print Assumptions C18_partition_tiles.
+Theorem C18_partition_no_block_twice : forall vs, boxes_disjointb vs = true ->
+  forall b, (length (owners vs b) <= 1)%nat.
+Proof. exact disjoint_sound. Qed.
+Print Assumptions C18_partition_no_block_twice.
+Theorem C18_partition_counts : forall spans vs, counts_ok spans vs = true ->
+  forall v, In v vs -> vtotal v = box_volume v
+                       /\ vactive v = Z.of_nat (length (filter (box_has v) (roi_blocks spans))).
+Proof. exact counts_sound. Qed.
+(* the reply of the code as it stands for spans {z=0: x 0..1} and {z=100: x 0..1}, batchsize 4:
+   the blocks at z = 100 have no owner *)
+Example C18_partition_empty_layer_reply :
+  let spans := [SP 0 0 0 1; SP 100 0 0 1] in
+  let vs := [SV (-1, 0, 0) (2, 3, 3) 64 2; SV (-1, 0, 4) (2, 3, 7) 64 2] in
+  boxes_disjointb vs = true /\ tiles_ok spans vs = false /\ owners vs (0, 0, 100) = []
+  /\ has_z_gap 4 spans = true.
+Proof. vm_compute. repeat split. Qed.
+Example C18_ex_partition :
+  let spans := [SP 0 0 0 1; SP 1 5 3 9] in
+  let vs := [SV (0, 0, 0) (1, 1, 1) 8 2; SV (3, 4, 0) (4, 5, 1) 8 2; SV (5, 4, 0) (6, 5, 1) 8 2;
+             SV (7, 4, 0) (8, 5, 1) 8 2; SV (9, 4, 0) (10, 5, 1) 8 1] in
+  boxes_disjointb vs = true /\ tiles_ok spans vs = true /\ counts_ok spans vs = true.
+Proof. vm_compute. repeat split. Qed.
+
 (* ---------- non-vacuity: the hypotheses are inhabited by non-trivial values ---------- *)
+Example C18_ex_round4_runs :
+  let l := [R 5 0 (-1) 3; R (-4) 0 (-1) 9; R 0 7 7 1] in
+  Forall run_ok l /\ pairwise_disjoint l /\ pt_safe (3, -4, 1073741823)
+  /\ within l [(5, 0, -1); (8, 0, -1); (-4, 0, -1); (0, 7, 7); (0, 7, 8)] = [0; 2; 3]%nat
+  /\ offset l (3, -4, 5) = [R 2 4 (-6) 3; R (-7) 4 (-6) 9; R (-3) 11 2 1]
+  /\ stats l = (13, 3).
+Proof.
+  cbv zeta.
+  assert (D : forall a b, (ry a <> ry b \/ rz a <> rz b \/ rx a + rlen a <= rx b \/ rx b + rlen b <= rx a) -> disjoint_runs a b).
+  { intros a b H [[x y] z]. unfold inr, px, py, pz; cbn [fst snd]. destruct a, b; cbn [RLE.rx RLE.ry RLE.rz RLE.rlen] in *. lia. }
+  split; [repeat constructor; cbn; lia|]. split; [repeat constructor; apply D; cbn; lia|].
+  split; [unfold pt_safe, px, py, pz; cbn; lia|]. vm_compute. repeat split.
+Qed.
+
+Example C18_ex_round4_izyx :
+  let a := [(-1, 0, -1); (0, 0, 0); (1, 0, 0); (-5, -5, 1)] in
+  let b := [(0, 0, 0); (0, 1, 0); (7, 7, 7)] in
+  ssorted a = true /\ ssorted b = true /\ Forall pt_is32 (a ++ b)
+  /\ imerge a b = [(-1, 0, -1); (0, 0, 0); (1, 0, 0); (0, 1, 0); (-5, -5, 1); (7, 7, 7)]
+  /\ idelete a b = [(-1, 0, -1); (1, 0, 0); (-5, -5, 1)] /\ isplit a b = idelete a b
+  /\ ifit a (Some (OB None None None None (Some 0) (Some 0))) = [(0, 0, 0); (1, 0, 0)]
+  /\ downres a 1 = [(-1, 0, -1); (-3, -3, 0); (0, 0, 0)]
+  /\ get_bounds a = ((-5, -5, -1), (1, 0, 1)).
+Proof.
+  cbv zeta. split; [reflexivity|]. split; [reflexivity|].
+  split; [repeat constructor; unfold is32, px, py, pz; cbn; lia|]. vm_compute. repeat split.
+Qed.
+
 Example C18_ex_key :
   to_zyx (-1, 0, 2147483647) = Ok [255; 255; 255; 255; 128; 0; 0; 0; 127; 255; 255; 255]
   /\ pt_is32 (-1, 0, 2147483647).
